@@ -15,31 +15,150 @@ the event interpreter `_do` (it is part of the history on both sides: op 0).
       | ["w", text]                   sys.stdout.write(text)
       | ["r", prompt]                 input(prompt)        (prompt: str or int)
       | ["r0"]                        input()
+
+OBJECTS THAT OUTLIVE AN EXECUTION (the "survivor" routes).  Student code can keep what one execution gave it
+and use it in a later one: a stored reference to `input` (`ask = input`), to `print`, a helper module imported by
+an earlier execution (its functions carry the `input` binding of the execution that imported it), a generator /
+closure created in one execution and advanced in another, a stored `sys.stdout` (`out = sys.stdout`, a default
+argument `file=sys.stdout`, the bound method `sys.stdout.write`).  The property does not care through which
+reference student code writes or reads: what is written / read DURING execution k belongs to execution k, and
+input() answers from the sandbox's queue as it is at that moment.  Route events (slot 0 is stored by the setup
+execution itself, other slots by a `keep` event; an unknown slot means "the current binding"):
+      | ["keep", slot]                      store {input, print, sys.stdout, sys.stdout.write, a function with the
+                                            default argument file=sys.stdout, a fresh import of the helper module}
+      | ["kr", slot, prompt] | ["kr0", slot]   the stored `input` (with / without prompt)
+      | ["hr", slot, prompt]                helper_module.rd(prompt)   (calls the module's own global `input`)
+      | ["kp", slot, [value...], sep, end]  the stored `print`
+      | ["hp", slot, [value...], sep, end]  helper_module.pr(...)      (print inside the module)
+      | ["hw", slot, text]                  helper_module.wr(text)     (sys.stdout.write inside the module, looked up
+                                            at call time)
+      | ["gnew", slot, [base ev...], captured]   create a generator that performs one base event per step (captured:
+                                            it bound `input` and `print` when it was created; else global lookup)
+      | ["gnext", slot, n]                  advance it n steps (values read are returned to the execution)
+    stored standard output (GATED by KEPT_STDOUT, see there):
+      | ["kw", slot, text]                  stored_stdout.write(text)
+      | ["kbw", slot, text]                 the stored bound method sys.stdout.write
+      | ["kpf", slot, [value...], sep, end] print(..., file=stored_stdout)
+      | ["dw", slot, [value...], sep, end]  def show(*a, file=sys.stdout, **k) defined at `keep` time
+      | ["hkw", slot, text]                 helper_module.kw(text): `out = sys.stdout` at import time, out.write(text)
 """
 import json
+import os
 
 from common import enc_str
 
+# Output written through a `sys.stdout` object that student code kept from an EARLIER execution.
+#   "off"   : such events are not generated and the corpus files using them are skipped
+#   "open"  : (DEFAULT - the main session decided: open finding, KNOWN_FINDINGS.jsonl signature {"claim": "raw-output",
+#             "shape": "kept-stdout-write-lost"}) generated; the model side drops the text (the code as it is: it lands in a buffer nobody reads),
+#             the oracle demands it (property text) -> the search reports {"claim": "raw-output", "shape":
+#             "kept-stdout-write-lost"}
+#   "fixed" : generated; model and oracle both say the text belongs to the execution that wrote it
+KEPT_STDOUT = os.environ.get("VERIF_C15_KEPT_STDOUT", "open")
+assert KEPT_STDOUT in ("off", "open", "fixed"), KEPT_STDOUT
+
+HELPER_NAME = "c15helper"
+HELPER = '''
+import sys
+out = sys.stdout
+def rd(*a):
+    return input(*a)
+def pr(*a, **k):
+    print(*a, **k)
+def wr(t):
+    sys.stdout.write(t)
+def kw(t):
+    out.write(t)
+'''
+
 SETUP = '''
 import sys
+_kept = {}
+_gens = {}
+_NOREAD = object()
+def _cur():
+    so = sys.stdout
+    def show(*a, file=sys.stdout, **k):
+        print(*a, file=file, **k)
+    return {'inp': input, 'pr': print, 'out': so, 'bw': so.write, 'dw': show, 'mod': __import__('%s')}
+def _keep(slot):
+    _kept[slot] = _cur()
+def _ref(slot):
+    return _kept.get(slot) or _cur()
+def _base(e, inp=None, pr=None):
+    k = e[0]
+    if k == 'p':
+        (pr or print)(*e[1], sep=e[2], end=e[3])
+    elif k == 'w':
+        sys.stdout.write(e[1])
+    elif k == 'r':
+        return (inp or input)(e[1])
+    elif k == 'r0':
+        return (inp or input)()
+    return _NOREAD
+def _mkgen(evs, captured):
+    inp, pr = (input, print) if captured else (None, None)
+    def steps():
+        for e in evs:
+            yield _base(e, inp, pr)
+    return steps()
+def _step(e, got):
+    k = e[0]
+    v = _NOREAD
+    if k in ('p', 'w', 'r', 'r0'):
+        v = _base(e)
+    elif k == 'keep':
+        _keep(e[1])
+    elif k == 'kr':
+        v = _ref(e[1])['inp'](e[2])
+    elif k == 'kr0':
+        v = _ref(e[1])['inp']()
+    elif k == 'hr':
+        v = _ref(e[1])['mod'].rd(e[2])
+    elif k == 'kp':
+        _ref(e[1])['pr'](*e[2], sep=e[3], end=e[4])
+    elif k == 'hp':
+        _ref(e[1])['mod'].pr(*e[2], sep=e[3], end=e[4])
+    elif k == 'hw':
+        _ref(e[1])['mod'].wr(e[2])
+    elif k == 'kw':
+        _ref(e[1])['out'].write(e[2])
+    elif k == 'kbw':
+        _ref(e[1])['bw'](e[2])
+    elif k == 'kpf':
+        print(*e[2], sep=e[3], end=e[4], file=_ref(e[1])['out'])
+    elif k == 'dw':
+        _ref(e[1])['dw'](*e[2], sep=e[3], end=e[4])
+    elif k == 'hkw':
+        _ref(e[1])['mod'].kw(e[2])
+    elif k == 'gnew':
+        _gens[e[1]] = _mkgen(e[2], e[3])
+    elif k == 'gnext':
+        for _ in range(e[2]):
+            g = _gens.get(e[1])
+            if g is None:
+                break
+            try:
+                x = next(g)
+            except StopIteration:
+                break
+            if x is not _NOREAD:
+                got.append(x)
+    else:
+        raise KeyError(k)
+    if v is not _NOREAD:
+        got.append(v)
 def _do(evs, boom=False):
     got = []
     for e in evs:
-        k = e[0]
-        if k == 'p':
-            print(*e[1], sep=e[2], end=e[3])
-        elif k == 'w':
-            sys.stdout.write(e[1])
-        elif k == 'r':
-            got.append(input(e[1]))
-        elif k == 'r0':
-            got.append(input())
+        _step(e, got)
     _got[:] = got
     if boom:
         raise ValueError('boom')
     return got
 _got = []
-'''
+_keep(0)
+''' % HELPER_NAME
 
 CALLABLES = {0: (lambda prompt: "C" + str(prompt)), 1: (lambda prompt: "k")}
 SETUP_OP = {"k": "exec", "kind": "run", "pre": None, "events": [], "raises": False, "student_file": True}
@@ -130,6 +249,116 @@ def gen_case(rng, allow_callable=True, max_ops=8):
     return {"ops": ops}
 
 
+BASE_KINDS = ("p", "w", "r", "r0")
+READ_ROUTES = ("kr", "kr0", "hr")
+WRITE_ROUTES = ("kp", "hp", "hw")
+STDOUT_ROUTES = ("kw", "kbw", "kpf", "dw", "hkw")       # gated by KEPT_STDOUT
+
+
+def uses_kept_stdout(case):
+    def any_in(evs):
+        return any(e[0] in STDOUT_ROUTES for e in evs)
+    return any(op["k"] == "exec" and any_in(op["events"]) for op in case["ops"])
+
+
+def gen_base_event(rng):
+    while True:
+        e = gen_event(rng)
+        if e[0] in BASE_KINDS:
+            return e
+
+
+def _print_parts(rng):
+    vals = [rng.choice([gen_text(rng, rich=False), rng.randint(0, 9), "v"]) for _ in range(rng.randint(0, 3))]
+    return vals, rng.choice([" ", "", "-", "\n"]), rng.choice(["\n", "\n", "", " ", "!"])
+
+
+def gen_route_event(rng, slots, gslots, kept_stdout):
+    """an event performed through something an (earlier) execution stored"""
+    r = rng.random()
+    slot = rng.choice(slots)
+    prompt = rng.choice(["p?", "", "Name: ", "x\n", " ", 5])
+    if r < 0.4:
+        k = rng.choice(READ_ROUTES)
+        return [k, slot] if k == "kr0" else [k, slot, prompt]
+    if r < 0.58:
+        k = rng.choice(WRITE_ROUTES)
+        if k == "hw":
+            return [k, slot, gen_text(rng)]
+        vals, sep, end = _print_parts(rng)
+        return [k, slot, vals, sep, end]
+    if r < 0.75 and gslots:
+        return ["gnext", rng.choice(gslots), rng.randint(1, 3)]
+    if r < 0.9 and kept_stdout:
+        k = rng.choice(STDOUT_ROUTES)
+        if k in ("kw", "kbw", "hkw"):
+            return [k, slot, gen_text(rng)]
+        vals, sep, end = _print_parts(rng)
+        return [k, slot, vals, sep, end]
+    return gen_base_event(rng)
+
+
+def gen_between(rng, allow_callable):
+    """an operation on the queue / the output between two executions; rebinding ones (clear_input, set_input(None),
+    a callable) are as likely as the in-place ones"""
+    r = rng.random()
+    if r < 0.27:
+        return {"k": "clear_input"}
+    if r < 0.37:
+        return {"k": "set_input", "arg": ["none"], "clear": rng.random() < 0.5}
+    if r < 0.6:
+        arg = ["one", gen_value(rng)] if rng.random() < 0.3 else ["many", [gen_value(rng) for _ in range(rng.randint(0, 3))]]
+        return {"k": "set_input", "arg": arg, "clear": rng.random() < 0.6}
+    if r < 0.67 and allow_callable:
+        return {"k": "set_input", "arg": ["callable", rng.randint(0, 1)], "clear": rng.random() < 0.5}
+    if r < 0.87:
+        return {"k": "queue_input", "items": [gen_value(rng) for _ in range(rng.randint(1, 3))]}
+    return {"k": "clear_output"}
+
+
+def gen_survivor_case(rng, allow_callable=True, kept_stdout=None):
+    """store references / create generators in one execution, change the queue (in place AND by rebinding) and the
+    output in between, use them in later executions"""
+    if kept_stdout is None:
+        kept_stdout = KEPT_STDOUT != "off"
+    ops = []
+    if rng.random() < 0.6:
+        ops.append({"k": "set_input", "arg": ["many", [gen_value(rng) for _ in range(rng.randint(1, 4))]], "clear": True})
+    slots, gslots = [0], []
+
+    def an_exec(first):
+        evs = []
+        if (first and rng.random() < 0.7) or (not first and rng.random() < 0.15):
+            slot = rng.choice([1, 2])
+            evs.append(["keep", slot])
+            if slot not in slots:
+                slots.append(slot)
+        if (first and rng.random() < 0.55) or (not first and rng.random() < 0.1):
+            slot = rng.choice([1, 2])
+            evs.append(["gnew", slot, [gen_base_event(rng) for _ in range(rng.randint(1, 5))], rng.random() < 0.6])
+            if slot not in gslots:
+                gslots.append(slot)
+        for _ in range(rng.randint(0, 2) if first else rng.randint(1, 4)):
+            evs.append(gen_route_event(rng, slots, gslots, kept_stdout) if rng.random() < 0.7 else gen_base_event(rng))
+        if rng.random() < 0.5:
+            rng.shuffle(evs)
+        kind = rng.choice(["run", "call", "call", "eval"])
+        pre = None
+        if kind != "eval" and rng.random() < 0.15:
+            pre = gen_arg(rng, allow_callable)
+            if pre == ["none"]:
+                pre = None
+        return {"k": "exec", "kind": kind, "pre": pre, "events": evs, "raises": rng.random() < 0.08,
+                "student_file": rng.random() < 0.5}
+
+    ops.append(an_exec(True))
+    for _ in range(rng.randint(1, 3)):
+        for _ in range(rng.randint(0, 3)):
+            ops.append(gen_between(rng, allow_callable))
+        ops.append(an_exec(False))
+    return {"ops": ops}
+
+
 # --------------------------------------------------------------------------
 # real pedal
 
@@ -141,6 +370,10 @@ def _py_arg(arg):
     if arg[0] == "many":
         return list(arg[1])
     return CALLABLES[arg[1]]
+
+
+def _as_tuple(e):
+    return tuple(e)
 
 
 def _events_literal(events):
@@ -158,8 +391,10 @@ def _run_source(op):
             lines.append("sys.stdout.write(%r)" % e[1])
         elif e[0] == "r":
             lines.append("_got.append(input(%r))" % (e[1],))
-        else:
+        elif e[0] == "r0":
             lines.append("_got.append(input())")
+        else:       # a survivor route: through the interpreter the setup execution defined
+            lines.append("_step(%r, _got)" % (_as_tuple(e),))
     if op["raises"]:
         lines.append("raise ValueError('boom')")
     return "\n".join(lines) + "\n"
@@ -185,8 +420,10 @@ def run_real(case):
     from pedal.core.report import MAIN_REPORT
     from pedal.core.commands import contextualize_report
     from pedal.sandbox import commands
+    from pedal.core.submission import Submission
     MAIN_REPORT.clear()
-    contextualize_report("")
+    # the (empty) main file plus a helper module student code can import (survivor routes hr / hp / hw / hkw)
+    contextualize_report(Submission(files={"answer.py": "", HELPER_NAME + ".py": HELPER}))
     sb = commands.get_sandbox()
     obs, student = [], []
     commands.run(SETUP, filename="answer.py")
@@ -231,6 +468,122 @@ def run_real(case):
 
 
 # --------------------------------------------------------------------------
+# which operations raise (a value given to set_input / queue_input / inputs= while a callable is installed), and
+# the trace of an execution with the survivor routes resolved
+
+def _arg_of(op):
+    k = op["k"]
+    if k == "exec":
+        return op["pre"], True
+    if k == "set_input":
+        return op["arg"], op["clear"]
+    if k == "queue_input":
+        return ["many", op["items"]], False
+    if k == "clear_input":
+        return ["none"], True
+    return None, True
+
+
+def walk(ops):
+    """yields (op, raises): `raises` = the API call raises AttributeError before changing anything (for an execution:
+    nothing is executed)"""
+    callable_on = False
+    for op in ops:
+        arg, clear = _arg_of(op)
+        raises = False
+        if arg is not None:
+            if callable_on and arg[0] != "none" and not (arg[0] == "callable" and not clear):
+                raises = True
+            elif arg[0] == "callable":
+                callable_on = True
+            elif arg[0] == "none":
+                callable_on = False
+        yield op, raises
+
+
+def flat_ops(case, view="oracle"):
+    """[SETUP_OP] + the case's ops, every execution's events reduced to what the property talks about:
+    ["p", ...] / ["w", text] (a write to standard output) and ["r", prompt] / ["r0"] / ["rk", prompt] (a call of input();
+    "rk": through a reference to `input` that an EARLIER execution handed out).  The property makes no difference
+    between the routes, so the oracle view is simply the events in the order they happen.
+    view="model": what is sent to the Lean model = the same, except that with KEPT_STDOUT == "open" text written
+    through a standard output object kept from an earlier execution is dropped (the code as it is)."""
+    kept = {0: 0}           # slot -> index of the execution that stored it (0 = the setup execution)
+    gens = {}               # slot -> [remaining base events, captured, index of the creating execution]
+    out = []
+    # view="lost" (diagnosis only): as "model"/"open", whatever the gate says
+    drop_kept = view == "lost" or (view == "model" and KEPT_STDOUT == "open")
+    for i, (op, raises) in enumerate(walk([SETUP_OP] + case["ops"])):
+        if op["k"] != "exec":
+            out.append(op)
+            continue
+        evs = []
+        if not raises:
+            def read(prompt, stale, noarg=False):
+                if stale:
+                    return ["rk", "" if noarg else prompt]
+                return ["r0"] if noarg else ["r", prompt]
+
+            for e in op["events"]:
+                k = e[0]
+                stale = len(e) > 1 and k not in BASE_KINDS and k not in ("gnew", "gnext", "keep") \
+                    and e[1] in kept and kept[e[1]] != i
+                if k in BASE_KINDS:
+                    evs.append(e)
+                elif k == "keep":
+                    kept[e[1]] = i
+                elif k in ("kr", "hr"):
+                    evs.append(read(e[2], stale))
+                elif k == "kr0":
+                    evs.append(read("", stale, noarg=True))
+                elif k in ("kp", "hp"):
+                    evs.append(["p", e[2], e[3], e[4]])
+                elif k == "hw":
+                    evs.append(["w", e[2]])
+                elif k in ("kw", "kbw", "hkw"):
+                    if not (stale and drop_kept):
+                        evs.append(["w", e[2]])
+                elif k in ("kpf", "dw"):
+                    if not (stale and drop_kept):
+                        evs.append(["p", e[2], e[3], e[4]])
+                elif k == "gnew":
+                    gens[e[1]] = [list(e[2]), bool(e[3]), i]
+                elif k == "gnext":
+                    g = gens.get(e[1])
+                    for _ in range(e[2]):
+                        if not g or not g[0]:
+                            break
+                        b = g[0].pop(0)
+                        if b[0] in ("r", "r0"):
+                            evs.append(read(ev_prompt(b), g[1] and g[2] != i, noarg=b[0] == "r0"))
+                        else:
+                            evs.append(b)
+                else:
+                    raise ValueError(e)
+        flat = dict(op)
+        flat["events"] = evs
+        out.append(flat)
+    return out
+
+
+def has_stale_route(case):
+    """does some execution use something an EARLIER execution stored (the survivor dimension is really exercised)"""
+    flat = flat_ops(case)
+    if any(e[0] == "rk" for op in flat if op["k"] == "exec" for e in op["events"]):
+        return True
+    kept = {0: 0}
+    for i, (op, raises) in enumerate(walk([SETUP_OP] + case["ops"])):
+        if op["k"] != "exec" or raises:
+            continue
+        for e in op["events"]:
+            if e[0] == "keep":
+                kept[e[1]] = i
+            elif e[0] in WRITE_ROUTES + STDOUT_ROUTES and kept.get(e[1], i) != i:
+                return True
+    return False
+
+
+# --------------------------------------------------------------------------
 # abstraction shared by the model request and the oracle: what the events put on stdout
 
 def ev_text(e):
@@ -244,6 +597,10 @@ def ev_text(e):
 
 def ev_prompt(e):
     return "" if e[0] == "r0" else e[1]
+
+
+def is_read(e):
+    return e[0] in ("r", "r0", "rk")
 
 
 def _enc_arg(arg):
@@ -264,8 +621,8 @@ def _enc_op(op):
         for e in op["events"]:
             if e[0] in ("p", "w"):
                 toks += ["w", enc_str(ev_text(e))]
-            else:
-                toks += ["r", enc_str(str(ev_prompt(e)))]
+            else:       # "rk": input() through a reference kept from an earlier execution
+                toks += ["rk" if e[0] == "rk" else "r", enc_str(str(ev_prompt(e)))]
         return toks
     if k == "clear_output":
         return ["C"]
@@ -279,7 +636,7 @@ def _enc_op(op):
 
 
 def request_line(case):
-    ops = [SETUP_OP] + case["ops"]
+    ops = flat_ops(case, view="model")
     toks = ["hist", str(len(ops))]
     for op in ops:
         toks += _enc_op(op)
@@ -347,28 +704,7 @@ def in_domain(case):
     """The property speaks about queued inputs.  Histories that call set_input/queue_input with a
     non-None value (or run(inputs=...)) while a callable is installed are outside it (the code raises
     AttributeError there; modelled and compared by the correspondence, not judged by the oracle)."""
-    callable_on = False
-    for op in case["ops"]:
-        k = op["k"]
-        if k == "exec":
-            arg, clear = op["pre"], True
-        elif k == "set_input":
-            arg, clear = op["arg"], op["clear"]
-        elif k == "queue_input":
-            arg, clear = ["many", op["items"]], False
-        elif k == "clear_input":
-            arg, clear = ["none"], True
-        else:
-            continue
-        if arg is None:
-            continue
-        if callable_on and arg[0] != "none" and not (arg[0] == "callable" and not clear):
-            return False
-        if arg[0] == "callable":
-            callable_on = True
-        elif arg[0] == "none":
-            callable_on = False
-    return True
+    return not any(raises for _op, raises in walk(case["ops"]))
 
 
 def items_of(arg):
@@ -402,12 +738,12 @@ def learn_default(exp_lists, real_lists):
     return "0"
 
 
-def expected(case, default=DEFAULT):
+def expected(case, default=DEFAULT, view="oracle"):
     """What the property says each observation must be.  `default` = the fixed default input."""
     raw, lines, queue, fn = "", [], [], None
     records = []
     out = []
-    for op in [SETUP_OP] + case["ops"]:
+    for op in flat_ops(case, view=view):
         k = op["k"]
         returned = None
         if k == "exec":
@@ -451,10 +787,12 @@ def expected(case, default=DEFAULT):
     return out, records
 
 
-def judge(case, real):
-    """-> None or (signature, what).  real = run_real(case)."""
+def judge(case, real, view="oracle"):
+    """-> None or (signature, what).  real = run_real(case).
+    view="lost": judge everything ELSE while tolerating the recorded open finding (text written through a standard
+    output object kept from an earlier execution vanishes), so that this finding cannot hide another failure."""
     robs, rctx, student = real
-    exp, records = expected(case)
+    exp, records = expected(case, view=view)
     # "a fixed default": whatever the first default read returned, the same ever after
     default = learn_default([e["returned"] for e in exp], [r["last_in"] for r in robs])
     if not isinstance(default, str):
@@ -471,7 +809,12 @@ def judge(case, real):
             return ({"claim": "operation-raised", "error": r["err"]},
                     "op %d (%s) raised %s" % (i, ops[i]["k"], r["err"]))
         if r["raw"] != e["raw"]:
-            return ({"claim": "raw-output"}, "op %d: raw output %r, expected %r" % (i, r["raw"][-60:], e["raw"][-60:]))
+            sig = {"claim": "raw-output"}
+            if view == "oracle" and uses_kept_stdout(case) and r["raw"] == expected(case, view="lost")[0][i]["raw"]:
+                # diagnosis only: exactly the text written through a standard output object kept from an earlier
+                # execution is missing
+                sig["shape"] = "kept-stdout-write-lost"
+            return (sig, "op %d: raw output %r, expected %r" % (i, r["raw"][-60:], e["raw"][-60:]))
         if r["lines"] != e["lines"]:
             shape = "other"
             if len(r["lines"]) > len(e["lines"]) and _is_with_extra_empties(r["lines"], e["lines"]):
@@ -511,6 +854,31 @@ def _is_with_extra_empties(got, want):
 # --------------------------------------------------------------------------
 # shrinking
 
+def _plain_of(e):
+    """the same event through the names of the current execution (None: not a route event / no plain form)"""
+    k = e[0]
+    if k in ("kr", "hr"):
+        return ["r", e[2]]
+    if k == "kr0":
+        return ["r0"]
+    if k in ("kp", "hp", "kpf", "dw"):
+        return ["p", e[2], e[3], e[4]]
+    if k in ("hw", "kw", "kbw", "hkw"):
+        return ["w", e[2]]
+    return None
+
+
+def _simpler_route(e):
+    k = e[0]
+    if k in ("kr", "hr"):
+        return [k, e[1], ""]
+    if k in ("kp", "hp", "kpf", "dw"):
+        return [k, e[1], ["a"], " ", "\n"]
+    if k in ("hw", "kw", "kbw", "hkw"):
+        return [k, e[1], "a\n"]
+    return None
+
+
 def shrink(case, still):
     case = json.loads(json.dumps(case))
     changed = True
@@ -534,6 +902,23 @@ def shrink(case, still):
                     break
             if changed:
                 break
+            for j, e in enumerate(op["events"]):        # steps of a generator, number of steps advanced
+                if e[0] == "gnew":
+                    for t in range(len(e[2])):
+                        c = json.loads(json.dumps(case))
+                        del c["ops"][i]["events"][j][2][t]
+                        if still(c):
+                            case, changed = c, True
+                            break
+                elif e[0] == "gnext" and e[2] > 1:
+                    c = json.loads(json.dumps(case))
+                    c["ops"][i]["events"][j][2] = e[2] - 1
+                    if still(c):
+                        case, changed = c, True
+                if changed:
+                    break
+            if changed:
+                break
             for key, val in (("raises", False), ("pre", None), ("kind", "call"), ("student_file", True)):
                 if op.get(key) != val:
                     c = json.loads(json.dumps(case))
@@ -544,6 +929,24 @@ def shrink(case, still):
             if changed:
                 break
             for j, e in enumerate(op["events"]):
+                # a survivor route: first try the same event through the current binding, then a simpler one of its kind
+                plain = _plain_of(e)
+                if plain is not None:
+                    c = json.loads(json.dumps(case))
+                    c["ops"][i]["events"][j] = plain
+                    if still(c):
+                        case, changed = c, True
+                        break
+                    simpler = _simpler_route(e)
+                    if simpler is not None and simpler != e:
+                        c = json.loads(json.dumps(case))
+                        c["ops"][i]["events"][j] = simpler
+                        if still(c):
+                            case, changed = c, True
+                            break
+                    continue
+                if e[0] not in BASE_KINDS:
+                    continue
                 simple = ["w", "a\n"] if e[0] in ("p", "w") else ["r", ""]
                 if e != simple:
                     c = json.loads(json.dumps(case))
